@@ -89,6 +89,7 @@ CFGS_QUICK = [
     dict(name='fault-all', H=3600, dur=2 * 3600, report='ALL', time_control=True),
     dict(name='fault-grid', H=1800, dur=2 * 3600, report=3600, time_control=True),
     dict(name='fault-concrete', H=3600, dur=3 * 3600, report=7200, time_control=False),
+    dict(name='fault-report-nonmultiple', H=3600, dur=4 * 3600, report=9000, time_control=False),   # 9000 is not a multiple of 3600: documented reduction to 7200
     dict(name='storm', H=3600, dur=2 * 3600, report='ALL', storm=True, storm_from=1, trials=2),
     dict(name='storm-first-step', H=3600, dur=3600, report=3600, storm=True, storm_from=0, trials=3),
 ]
@@ -159,7 +160,7 @@ def check_cfg(rep, cfg):
             claims = []
             if res is not None:
                 T = [real(t) for t in res.time]
-                grid = cfg['report'] if not isinstance(cfg['report'], str) else None
+                grid = _grid(cfg)
                 if T:
                     claims.append(('times', z3.And(T[0] == 0, *[T[k] < T[k + 1] for k in range(len(T) - 1)])))
                     if grid:
@@ -220,6 +221,16 @@ def check_cfg(rep, cfg):
             rep.reach('c16/' + tag, cons)
 
 
+def _grid(cfg):
+    """the report grid the simulator documents: 'ALL' -> None; a report step that is not a multiple of the hydraulic step is reduced to one"""
+    if isinstance(cfg['report'], str):
+        return None
+    r, h = cfg['report'], cfg['H']
+    if r < h:
+        return r
+    return r - r % h
+
+
 def _inputs(model, path):
     out = {}
     for d in model.decls():
@@ -270,7 +281,7 @@ def replay_fault(i):
         finally:
             core._solver_helper = real_helper
     if cfg.get('storm'):
-        return None    # the storm needs the stub's head pattern; not realisable with the real solver on this template
+        return _storm_real(cfg, conv)
     ref, _, _ = go(False)
     res, exc, warned = go(True)
     hit = fail_at >= 0 and state['n'] > fail_at and not (backup and backup_ok)
@@ -293,7 +304,7 @@ def replay_fault(i):
         idx = list(res.node['head'].index)
         if idx != sorted(set(idx)):
             return 'result index not strictly increasing: %r' % idx
-        if not isinstance(cfg['report'], str) and any(t % cfg['report'] for t in idx):
+        if _grid(cfg) and any(t % _grid(cfg) for t in idx):
             return 'result index off the report grid: %r' % idx
         for k, df in list(res.node.items()) + list(res.link.items()):
             if list(df.index) != idx:
@@ -306,8 +317,41 @@ def replay_fault(i):
         for k in ('head', 'demand'):
             if n and abs(ref.node[k].iloc[:n].values - res.node[k].values).max() > 1e-9:
                 return 'node %s before the failure differs from the fault-free run' % k
-        if not hit and (not idx or idx[-1] != (cfg['dur'] if isinstance(cfg['report'], str) else (cfg['dur'] // cfg['report']) * cfg['report'])):
+        if not hit and (not idx or idx[-1] != (cfg['dur'] if _grid(cfg) is None else (cfg['dur'] // _grid(cfg)) * _grid(cfg))):
             return 'run without a failed step stops at %r, duration %d' % (idx[-1:] or None, cfg['dur'])
+    return None
+
+
+def _storm_real(cfg, conv):
+    """a real network whose post-solve controls flip a pipe on every trial: closing the only feed isolates the junction (pressure 0),
+    which re-opens it, which restores the pressure, which closes it ... until the trial limit"""
+    wn = wntr.network.WaterNetworkModel()
+    wn.add_reservoir('R', base_head=50.0)
+    wn.add_junction('J1', base_demand=0.01, elevation=0.0)
+    wn.add_junction('J2', base_demand=0.01, elevation=0.0)
+    wn.add_pipe('P1', 'R', 'J1')
+    wn.add_pipe('P2', 'J1', 'J2')
+    t = wn.options.time
+    t.hydraulic_timestep = t.rule_timestep = cfg['H']
+    t.report_timestep = cfg['report']
+    t.duration = cfg['dur']
+    wn.options.hydraulic.trials = cfg.get('trials', 3)
+    j2 = wn.get_node('J2')
+    wn.add_control('hi', Control(ValueCondition(j2, 'pressure', Comparison.gt, 10.0), ControlAction(wn.get_link('P2'), 'status', LinkStatus.Closed)))
+    wn.add_control('lo', Control(ValueCondition(j2, 'pressure', Comparison.lt, 10.0), ControlAction(wn.get_link('P2'), 'status', LinkStatus.Open)))
+    with warnings.catch_warnings(record=True) as w:
+        warnings.simplefilter('always')
+        try:
+            res = wntr.sim.WNTRSimulator(wn).run_sim(convergence_error=conv)
+        except RuntimeError as ex:
+            return None if conv else 'RuntimeError although convergence_error=False: %s' % ex
+        warned = [str(x.message) for x in w if 'trials' in str(x.message) or 'converge' in str(x.message)]
+    if conv:
+        return 'the trial limit was exceeded with convergence_error=True but run_sim returned normally'
+    if res.error_code != ResultsStatus.error:
+        return 'the trial limit was exceeded but error_code=%r' % (res.error_code,)
+    if not warned:
+        return 'the trial limit was exceeded but no warning was issued'
     return None
 
 
